@@ -32,6 +32,7 @@
    last ending one or two bytes (the line end) before the returned offset. *)
 From Sipsp Require Import Harness Framing Resume SafeMore SafeMsg Layout FLineConv TrimSpec SigCoherent LowerBound.
 From Sipsp Require Import Tables.
+From Sipsp Require Import CSeqNest NameAddrNest.
 
 Theorem C05_body_and_raw_message : forall m h e,
   pf_end (m_body (finished m h e)) = h + (e - h) /\
@@ -148,7 +149,55 @@ Theorem C05_values_after_names_fed : forall flags B offs bl n nc o s o' e m', te
 Proof. exact message_vbound_fed. Qed.
 Theorem C05_special_kinds : forall t, special t = true <-> t = HdrFrom \/ t = HdrTo.
 Proof. intros t. unfold special. rewrite !orb_true_iff, !N.eqb_eq. tauto. Qed.
+(* ---- header-specific sub-fields nest: every input, every chunk schedule ------------------------------------------------------------------ *)
+(* CSeq: the value starts with the number, the method comes after the number and ends the value *)
+Theorem C05_cseq_fields_nest : forall i s buf o s', cs_fed i s -> parse_cseq buf i s = Done o EOk s' ->
+  po (cs_v s') = po (cs_cseq s') /\ pf_end (cs_cseq s') <= po (cs_method s') /\ pf_end (cs_method s') = pf_end (cs_v s').
+Proof. exact cseq_fields_nest. Qed.
+(* the schedules: a fresh object, then calls that each answered "more bytes" *)
+Theorem C05_cseq_schedules_mean : forall i s, cs_fed i s <->
+  s = cseq0 \/ exists i0 s0 buf, cs_fed i0 s0 /\ parse_cseq buf i0 s0 = Done i EMore s.
+Proof.
+  intros i s. split.
+  - intros H. destruct H as [i|i0 s0 buf o s' H0 H1]; [left; reflexivity|right; exists i0, s0, buf; auto].
+  - intros [->|(i0 & s0 & buf & H0 & H1)]; [constructor|econstructor; eassumption].
+Qed.
+(* From / To / Contact / P-Asserted-Identity: display name, URI and parameter span lie inside the value V *)
+Theorem C05_nameaddr_fields_nest : forall h buf offs s o e s', fb_fed h buf offs s -> parse_nameaddr h buf offs s = Done o e s' ->
+  e = EOk \/ e = EMoreValues ->
+  (pl (fb_name s') = 0 \/ (po (fb_v s') <= po (fb_name s') /\ pf_end (fb_name s') <= pf_end (fb_v s'))) /\
+  (pl (fb_uri s') = 0 \/ (po (fb_v s') <= po (fb_uri s') /\ pf_end (fb_uri s') <= pf_end (fb_v s'))) /\
+  (pl (fb_params s') = 0 \/ (po (fb_v s') <= po (fb_params s') /\ pf_end (fb_params s') <= pf_end (fb_v s'))).
+Proof. exact nameaddr_fields_nest. Qed.
+Theorem C05_nameaddr_schedules_mean : forall h buf' o s', fb_fed h buf' o s' <->
+  (s' = pfrom0 /\ o <= nnat (length buf')) \/
+  exists buf offs s, fb_fed h buf offs s /\ parse_nameaddr h buf offs s = Done o EMore s' /\
+                     firstn (N.to_nat o) buf' = firstn (N.to_nat o) buf /\ o <= nnat (length buf').
+Proof.
+  intros h buf' o s'. split.
+  - intros H. destruct H as [buf offs Ho|buf offs s o s' buf' H0 H1 H2 H3]; [left; auto|right; exists buf, offs, s; auto].
+  - intros [[-> Ho]|(buf & offs & s & H0 & H1 & H2 & H3)]; [constructor; exact Ho|econstructor; eassumption].
+Qed.
+(* satisfiable: "Bob <sip:b>;tag=x" fed in two pieces; "12 INVITE" fed in two pieces *)
+Example C05_nest_example :
+  let b1 := [66;111;98;32;60;115;105] in
+  let b2 := [66;111;98;32;60;115;105;112;58;98;62;59;116;97;103;61;120;13;10;120] in
+  (exists o1 s1, parse_nameaddr HdrFrom b1 0 pfrom0 = Done o1 EMore s1 /\ fb_fed HdrFrom b2 o1 s1 /\
+     exists o2 s2, parse_nameaddr HdrFrom b2 o1 s1 = Done o2 EOk s2 /\ fb_name s2 = mkpf 0 4 /\ fb_uri s2 = mkpf 5 5 /\ fb_v s2 = mkpf 0 17) /\
+  (exists o1 s1, parse_cseq [49;50;32;73] 0 cseq0 = Done o1 EMore s1 /\ cs_fed o1 s1 /\
+     exists o2 s2, parse_cseq [49;50;32;73;78;86;73;84;69;13;10;120] o1 s1 = Done o2 EOk s2 /\ cs_cseq s2 = mkpf 0 2 /\ cs_method s2 = mkpf 3 6).
+Proof.
+  cbv zeta. split.
+  - eexists. eexists. split; [vm_compute; reflexivity|]. split.
+    + eapply (fb_fed1 HdrFrom [66;111;98;32;60;115;105] 0 pfrom0); [constructor; vm_compute; discriminate|vm_compute; reflexivity|reflexivity|vm_compute; discriminate].
+    + eexists. eexists. split; [vm_compute; reflexivity|]. repeat split.
+  - eexists. eexists. split; [vm_compute; reflexivity|]. split.
+    + eapply (cs_fed1 0 cseq0 [49;50;32;73]); [constructor|vm_compute; reflexivity].
+    + eexists. eexists. split; [vm_compute; reflexivity|]. repeat split.
+Qed.
 Print Assumptions C05_message.
+Print Assumptions C05_cseq_fields_nest.
+Print Assumptions C05_nameaddr_fields_nest.
 Print Assumptions C05_message_every_schedule.
 Print Assumptions C05_stored_values_trimmed.
 Print Assumptions C05_values_after_names.
